@@ -1,6 +1,7 @@
 // C11 - uriEqualsUri is component-wise identity; for library-made URIs it coincides with identity of the
 // recomposed text; equivalence relation; NULL handling; arguments untouched.
 #include "../core.h"
+#include <deque>
 #include "fixture.h"
 #include "resolve_sets.h"
 
@@ -83,8 +84,14 @@ template <class C> struct Runner {
                 keep_uris.push_back(src);
             }
         }
+        // every text that some operation produced but no seed spells: the URI read from that text joins the objects (once per text), so a
+        // produced object always meets the parse of its own text - equal texts, so they must compare equal
+        { std::set<Str> parsed; for (auto &m : out) if (m.how.compare(0, 6, "parse(") == 0) parsed.insert(m.text);
+          size_t n0 = out.size();
+          for (size_t i = 0; i < n0; i++) { Str t = out[i].text; if (!parsed.insert(t).second) continue; keep_re.push_back(widen<C>(t)); const std::basic_string<C> &w = keep_re.back(); const C *ep; Uri u;
+              if (A::ParseSingleUriEx(&u, w.data(), w.data() + w.size(), &ep) == URI_SUCCESS) { Made m; m.how = "reparse(" + t + ")"; m.u = u; int rc; m.text = to_text<C>(u, &rc); out.push_back(m); } } }
     }
-    std::vector<Uri> keep_uris;
+    std::vector<Uri> keep_uris; std::deque<std::basic_string<C> > keep_re;   // a deque: its elements never move
     // (c) every sub-range [j, i) of one shared buffer that parses, all pairs: components of two URIs then start (or end) at the very
     //     same address although their texts differ, which is what a pointer-identity shortcut in a comparison would trip over
     void shared_buffer(const Str &text) {
@@ -105,7 +112,7 @@ template <class C> struct Runner {
 static const char *SHARED_TEXTS[] = { "s://u@h:80/a/b?q#f", "//[::1]:8/p//q?x#y", "a/b/c", "/a//b/", "s:aa/aa?aa#aa", "//1.2.3.4:1?#", "s://uu@hh:11/pp?qq#ff", "//[v1.ab]/ab", "aaaa", "a:a:a/a:a" };
 
 static std::vector<Str> produce_seeds(int n) {
-    std::vector<Str> v = resolve_refs(n, false); std::vector<Str> extra = { "s:/", "s:", "s:/a", "s:a", "s://h", "s://h/", "s://h/a/../", "s:/a/..", "t:/a/..", "s:/.//a", "S://H/%41", "s://h/A", "s://1%2E2.3.4/a", "s://1.2.3.4/a", "s://%31.2.3.4/a", "s://255.255%2E255.255/a", "s://255.255.255.255/a", "s://u@1.2.3.4", "s://u@1%2E2.3.4", "s://u@1.2.3.4:", "s://u@h", "s://u@[::1]", "s://1.2.3.4" /* the text ends right behind the host */ };
+    std::vector<Str> v = resolve_refs(n, false); std::vector<Str> extra = { "s:/", "s:", "s:/a", "s:a", "s://h", "s://h/", "s://h/a/../", "s:/a/..", "t:/a/..", "s:/.//a", "S://H/%41", "s://h/A", "s://1%2E2.3.4/a", "s://1.2.3.4/a", "s://%31.2.3.4/a", "s://255.255%2E255.255/a", "s://255.255.255.255/a", "s://u@1.2.3.4", "s://u@1%2E2.3.4", "s://u@1.2.3.4:", "s://u@h", "s://u@[::1]", "s://1.2.3.4" /* the text ends right behind the host */, "./b:", "a/../b:", "./a:b:", "x/../y:/z", "s:./b:" };
     v.insert(v.end(), extra.begin(), extra.end()); return v;
 }
 
